@@ -165,7 +165,7 @@ theorem main_conv {l r : Expr} (hF : Frag (.bin .conv l r) = true) (ml : Main l)
       Parses (.level 1) (toks (.bin .conv l r) ++ R) res := by
     intro R res hc h
     rw [hcan] at h
-    rw [toks_conv, List.append_assoc]
+    rw [toks_conv _ _ hrc, List.append_assoc]
     have h2 := mr.C hrc _ _ _ hc h
     cases hlc : l.isCond with
     | true =>
@@ -180,7 +180,7 @@ theorem main_conv {l r : Expr} (hF : Frag (.bin .conv l r) = true) (ml : Main l)
     exact hOC R _ (hc.mono (by omega)) (Parses.loop_exit (acc := canon (.bin .conv l r)) (hc.binOpAt_none (Nat.le_refl _)))
   refine ⟨hP, A_single hF hP rfl, M_single hF hP rfl, ?_, OA_single hF hP rfl, OM_single hF hP rfl, fun _ => hOC⟩
   intro _ acc R res hc h
-  rw [toks_conv, List.append_assoc]
+  rw [toks_conv _ _ hrc, List.append_assoc]
   rw [canonC_conv] at h
   simp only [foldBin_append] at h
   have h2 := mr.C hrc _ _ _ hc h
